@@ -26,6 +26,7 @@ Directive summary (lines starting with //@):
       //@rw name_iters                R13 as a rule: `for PAT in A..B` => `for PAT in iter: A..B` (ghost iterator name only)
       //@rw deref_buffer A,B          R15 as a rule: A[..] => A.buffer[..], A.len() => A.buffer.len() for the listed variables
       //@rw float_neg                 R16: unary `-(E)` / `-place` on floats => `f64_neg(..)` (contracted wrapper)
+      //@rw cast_usize_f64            R6: `OPERAND as f64` => `usize_to_f64(OPERAND)` (operand: place or parenthesised expression)
       //@rw rev_loops                 R7: `for X in (A..B).rev()` => descending while loop over X_next
       //@rw float_opassign A,B        R4 as a rule: `LHS op= RHS;` => `LHS = LHS op (RHS);` when LHS starts with a listed name
       //@subst KIND "A" => "B" [count N]   declared literal rewrite (KIND in R4,R5,R6,R7,R11)
@@ -340,6 +341,12 @@ class Extractor:
                                     edits.append(Edit(start_ + ws, start_ + ws, 'pub ', 'R1'))
                                 start_ = ch_i + 1
 
+        # a private `const` item is made `pub` for the same reason as struct fields
+        if path[-1].startswith('const '):
+            cm_ = next(find_code(item, mask, r'\bconst\s+\w+'), None)
+            if cm_ is not None and not re.search(r'\bpub\b[^;]*$', item[:cm_.start()].split('\n')[-1]):
+                edits.append(Edit(cm_.start(), cm_.start(), 'pub ', 'R1'))
+
         body_open = body_close = None
         if is_fn:
             fm = next(find_code(item, mask, r'\bfn\s+\w+'))
@@ -549,6 +556,42 @@ class Extractor:
                         edits.append(Edit(end_, end_, ')', 'R16'))
                     cnt += 1
                 self.substs.append({'fn': qual, 'kind': 'R16', 'from': '-(E) / -place', 'to': 'f64_neg(E)', 'count': cnt})
+            elif head == 'rw cast_usize_f64':
+                # R6 as a rule: `OPERAND as f64`, OPERAND a place expression or a parenthesised expression of type
+                # usize, goes through the contracted wrapper usize_to_f64 (float_axioms.inc)
+                cnt = 0
+                for mm in find_code(item, mask, r'\s+as\s+f64\b', body_open, body_close):
+                    end_ = mm.start()
+                    j = end_
+                    # walk back over the operand
+                    while j > body_open:
+                        ch = item[j - 1]
+                        if ch in ')]':
+                            # matching opener, scanning backwards
+                            depth, k_ = 0, j - 1
+                            closer = ch
+                            opener = '(' if ch == ')' else '['
+                            while k_ >= body_open:
+                                if mask[k_]:
+                                    if item[k_] == closer:
+                                        depth += 1
+                                    elif item[k_] == opener:
+                                        depth -= 1
+                                        if depth == 0:
+                                            break
+                                k_ -= 1
+                            j = k_
+                        elif ch.isalnum() or ch in '_.':
+                            j -= 1
+                        else:
+                            break
+                    operand = item[j:end_]
+                    if not operand.strip():
+                        continue
+                    edits.append(Edit(j, j, 'usize_to_f64(', 'R6'))
+                    edits.append(Edit(mm.start(), mm.end(), ')', 'R6'))
+                    cnt += 1
+                self.substs.append({'fn': qual, 'kind': 'R6', 'from': 'OPERAND as f64', 'to': 'usize_to_f64(OPERAND)', 'count': cnt})
             elif head == 'rw rev_loops':
                 # R7 as a rule: `for X in (A..B).rev() {` => `let mut X_next = B; while X_next > A { X_next -= 1; let X = X_next;`
                 cnt = 0
